@@ -44,6 +44,7 @@ type zzEnv struct {
 	start    map[string]*big.Int // acc/asset -> starting balance
 	rem      map[string]*big.Int // acc/asset -> balance visible to the next statement
 	store    StaticStore
+	spec     map[string]string
 
 	// accumulated expectations
 	missing   bool // some statement cannot be funded (symbolic)
@@ -158,6 +159,7 @@ func zzPrepare(script, varspec string) *zzEnv {
 	e.pr = Parse(script)
 	e.prog = e.pr.parseResult.Value
 	spec := zzParseSpec(varspec)
+	e.spec = spec
 	for _, d := range e.prog.Vars {
 		if d.Name == nil || d.Type == nil {
 			continue
